@@ -937,6 +937,46 @@ func c01HistoryScenario(dotu bool) Scenario {
 				fail("unpackdir-error", what+": UnpackDir: "+err.Error())
 			} else if diff := cmpDir(&st, d, dotu, false); diff != "" {
 				fail("unpackdir/"+sigWords(diff), what+": UnpackDir of a stat record differs from its bytes: "+diff)
+			} else {
+				// a decoded record is an ordinary Dir: changed and encoded again (in the same dialect,
+				// or a .u record in the plain one) it is laid out from its fields, whatever its Size says
+				for _, nm := range []string{st.Name + "-renamed", "", "n"} {
+					d2, st2 := *d, st
+					d2.Name, st2.Name = nm, nm
+					dialects := []bool{dotu}
+					if dotu {
+						dialects = append(dialects, false)
+					}
+					for _, du := range dialects {
+						res.Evals++
+						want := wire.EncodeStat(&st2, du)
+						if got := go9p.PackDir(&d2, du); !bytes.Equal(got, want) {
+							fail("reencode-after-change/packdir", fmt.Sprintf("%s: the record decoded (dotu %v), renamed to %q and packed again (dotu %v) with PackDir is %d bytes %x, the layout of its fields is %d bytes %x", what, dotu, nm, du, len(got), trunc(got), len(want), trunc(want)))
+						}
+						for _, t := range []uint8{wire.Rstat, wire.Twstat} {
+							fc := go9p.NewFcall(8192)
+							var err error
+							if t == wire.Rstat {
+								err = go9p.PackRstat(fc, &d2, du)
+							} else {
+								err = go9p.PackTwstat(fc, 3, &d2, du)
+							}
+							wm := wire.Encode(&wire.Msg{Type: t, Tag: wire.NOTAG, Fid: 3, Stat: st2}, du)
+							if err != nil || !bytes.Equal(fc.Pkt, wm) {
+								fail("reencode-after-change/"+wire.Names[t], fmt.Sprintf("%s: the record decoded (dotu %v), renamed to %q and packed into a %s (dotu %v): err %v, %d bytes, the layout of its fields is %d bytes", what, dotu, nm, wire.Names[t], du, err, len(fc.Pkt), len(wm)))
+							}
+						}
+					}
+				}
+				// ... and so is a Dir whose Size field holds anything at all
+				for _, sz := range []uint16{1, 47, 65535} {
+					d3 := toDir(&st)
+					d3.Size = sz
+					res.Evals++
+					if got, want := go9p.PackDir(d3, dotu), wire.EncodeStat(&st, dotu); !bytes.Equal(got, want) {
+						fail("stale-size/packdir", fmt.Sprintf("%s: PackDir of a Dir whose Size field is %d gives %d bytes, the layout of its fields is %d bytes", what, sz, len(got), len(want)))
+					}
+				}
 			}
 			for _, t := range []uint8{wire.Rstat, wire.Twstat} {
 				m := &wire.Msg{Type: t, Tag: 9, Fid: 3, Stat: st}
